@@ -26,7 +26,7 @@ from .C15 import apply_model_ramp, defgrad
 PROP = "C01"
 
 EVIDENCE = {
-    "probes_expected": ["fd-probe", "fd-probe-smooth", "kink-discarded", "settled-incompressible-checked", "symmetry-checked", "cache-transparency-checked", "call-order-checked", "repeated-evaluation-checked", "parallel-knob-checked", "item:MultiPointContact", "item:MultiPointConstraint", "item:SolidBodyPressure", "item:SolidBodyCauchyStress", "item:FormItem", "item:SolidBodyNearlyIncompressible", "history-state-probe", "umat-kwargs-checked"],
+    "probes_expected": ["fd-probe", "fd-probe-smooth", "kink-discarded", "settled-incompressible-checked", "symmetry-checked", "cache-transparency-checked", "call-order-checked", "repeated-evaluation-checked", "parallel-knob-checked", "item:MultiPointContact", "item:MultiPointConstraint", "item:SolidBodyPressure", "item:SolidBodyCauchyStress", "item:FormItem", "item:SolidBodyNearlyIncompressible", "history-state-probe", "umat-kwargs-checked", "tangent-after-region-reload"],
     "clauses_sampled_only": ["for stateless items the derivative check at a given state is a pure function of that state; only the states (and the cache / link / multiplier protocol through which K and f reach Newton) are history-generated"],
 }
 
@@ -397,6 +397,46 @@ def kwargs_check(doc, log):
             log.count("umat-kwargs-checked")
 
 
+def reload_check(doc, log):
+    """Geometry changed in place (`mesh.update(points=..., callback=region.reload)`, same field
+    container, same item objects that were assembled before): matrix = derivative of the vector on
+    the new geometry for every item."""
+    if doc["field"]["kind"] != "Field" or doc["mesh"].get("convert") or doc["mesh"].get("extra_point") or doc["mesh"].get("orphan_point"):
+        return
+    rng = np.random.default_rng(doc["c01"]["probe_seed"] + 1)
+    items = [it for it in copy.deepcopy(doc["items"]) if it["type"] == "SolidBody" and it["umat"]["name"] in ("NeoHooke", "NeoHookeCompressible", "AD:neo_hooke", "AD:mooney_rivlin")][:1]
+    un = doc.get("units", {})
+    S_ = float(un.get("S", 1.0))
+    items.append({"type": "FormItem", "C_seed": int(rng.integers(1 << 30)), "mu": 0.7 * S_, "lmbda": 0.4 * S_, "scale": 1.0, "sym": False, "nonsym": bool(rng.integers(2))})
+    w = world.World({"seed": doc["seed"], "mesh": doc["mesh"], "field": doc["field"], "items": items, "steps": []})
+    L_ = float(np.max(doc["mesh"]["b"])) / max(doc["mesh"]["n"])
+    u = 0.02 * L_ * rng.normal(size=w.field[0].values.shape)
+    w.set_values([u])
+    world.ref_fun_items(w, w.items)
+    world.ref_jac_items(w, w.items)  # everything assembled once on the old geometry
+    newp = w.mesh.points * (1.0 + 0.2 * rng.uniform(0.3, 1.0)) + 0.05 * L_ * rng.uniform(-1, 1, w.mesh.points.shape)
+    w.mesh.update(points=newp, callback=w.region.reload)
+    if np.any(w.region.dV <= 0):
+        return
+
+    def R(x):
+        w.set_values([x.reshape(u.shape)])
+        return world.ref_fun_items(w, w.items)
+
+    R(u.ravel())
+    K = world.ref_jac_items(w, w.items)
+    d = rng.normal(size=u.size)
+    d /= np.abs(d).max()
+    h = 1e-6 * L_
+    g = (R(u.ravel() + h * d) - R(u.ravel() - h * d)) / (2 * h)
+    Kd = K @ d
+    err = float(np.abs(Kd - g).max())
+    sc = float(np.abs(Kd).max() + np.abs(g).max()) + 1e-300
+    if not np.isfinite(err) or err > 2e-5 * sc:
+        raise Violation(PROP, "fd-tangent", f"after the geometry was updated in place (region reloaded) the matrix of {'+'.join(i_['type'] for i_ in items)} differs from the central difference of the vector by {err:.3e} (scale {sc:.3e})", site="items.after-region-reload")
+    log.count("tangent-after-region-reload")
+
+
 def run(doc, log):
     dd = copy.deepcopy(doc)
     holder = {}
@@ -416,6 +456,8 @@ def run(doc, log):
     nconv = len(eng.callbacks)
     if pick(doc["seed"], "umat-kwargs", 5) == 0:
         kwargs_check(doc, log)
+    if pick(doc["seed"], "region-reload", 3) == 0:
+        reload_check(doc, log)
     sig = "|".join(
         [
             doc["mesh"]["gen"] + str(doc["mesh"].get("convert")),
